@@ -34,6 +34,72 @@ CLAIMED = {
             'CPython hash constants are the documented ones (both 64- and 32-bit configurations are '
             'analysed); only the Python-3 branch of the kernels is analysed.',
             'DESIGN.md section 2, Engine G'),
+    'C02': ('B-rounding-flow',
+            'static analysis: rounding-flow abstract interpretation (precision + rounding-mode terms) of '
+            'the real kernels, value checks of the mode tables, argument-threading and idiom '
+            'well-formedness rules',
+            'Clause of the property: on every path each basic real operation ends in a rounding primitive '
+            'that receives the caller\'s precision and the caller\'s rounding mode (mode terms tracked '
+            'through negative_rnd/reciprocal_rnd and exact negation); the three mode tables have the '
+            'directed-rounding semantics as values; every operator method (including the generated '
+            'ones), mpf() construction and fadd..fdiv thread the context\'s (prec, rounding); the '
+            'sticky-bit idioms of division, square root and far-exponent addition are present and '
+            'internally consistent; the two tie-mask implementations agree.  Does NOT prove that the '
+            'rounded value is the nearest one (bit-level algebra).',
+            'Trusts _normalize/_normalize1 (structure checked under C01) and the idiom lemmas.',
+            'DESIGN.md section 2, Engine B (B-R3, B-R4)'),
+    'C03': ('B-rounding-flow',
+            'static analysis: data-flow / structural rules on mpf_pow_int (directed intermediates), '
+            'mode-term analysis of its summary, value checks of the mode tables',
+            'Clause: in mpf_pow_int every intermediate truncation is directed by (mode, sign of result), '
+            'negative exponents swap the mode for the inner power and add precision, the exact path is '
+            'independent of the precision and rounded once, and the final rounding uses the caller\'s '
+            'mode - the conditions under which a directed result cannot cross x**n.  Ulp bounds are not '
+            'decided.',
+            'Trusts mpf_div/normalize (C02) and the monotonicity argument of binary exponentiation.',
+            'DESIGN.md section 2, Engine B (B-R5)'),
+    'C04': ('B-rounding-flow',
+            'static analysis: rounding-flow abstract interpretation with single-rounding tracking of the '
+            'complex kernels, threading/dispatch rules over the mpc operator methods',
+            'Clause: each component of complex +,-,* (and mixed real/int forms) is on every path special '
+            'or ONE rounding, in the caller\'s mode at the requested precision, of exactly formed real '
+            'products/sums; operators and fadd/fsub/fmul pass (prec, rounding) and dispatch to the '
+            'like-named kernel with operands in order; mpc equality is exact componentwise equality.  '
+            'Two known findings (component passed through by mpc_add_mpf / mpc_sub_mpf).  Error bounds of '
+            'division/powers are not decided.',
+            'Trusts the real kernels (C02).',
+            'DESIGN.md section 2, Engine B'),
+    'C06': ('B-rounding-flow',
+            'static analysis: rounding-flow abstract interpretation (bounded / caller\'s mode / single '
+            'rounding) of floor, ceil, nint, frac, mod and their complex forms, plus wiring rules',
+            'Clause: every path of the integer-part kernels yields a special value or a single rounding in '
+            'the caller\'s mode at the requested precision of an exactly computed value (exact integer '
+            'part, exact difference); public names are wired to the like-named kernels with the right '
+            'direction constants; int() truncates.  The integer arithmetic of mpf_round_int / the modulo '
+            'reduction is not decided.',
+            'Trusts mpf_round_int as an exact integer-part operation.',
+            'DESIGN.md section 2, Engine B'),
+    'C07': ('B-rounding-flow',
+            'static analysis: data-flow rules over from_str and its callers, rounding-mode analysis of '
+            'interval-literal endpoints, cache-key rule on the conversion path',
+            'Clause: from_str computes from the exact (mantissa, exponent) integers, never through a '
+            'machine float; moderate exponents are rounded once with the caller\'s mode; for huge '
+            'exponents the mantissa stays exact and the power of ten is rounded in a direction derived '
+            'from the mode and the sign; every caller passes (prec, rounding); interval literal forms '
+            'round lower endpoints with floor and upper endpoints with ceiling directly from the text; no '
+            'memo table on the path omits the rounding mode.  A genuine defect (|exp|>400 branch) was '
+            'repaired.  Correct rounding of from_rational/from_int is C02\'s clause.',
+            'Trusts from_int/from_rational/mpf_pow_int (C02/C03).',
+            'DESIGN.md section 2, Engine B (B-R5)'),
+    'C13': ('B-rounding-flow',
+            'static analysis: call-site rule over every use of the finite-only normaliser',
+            'Clause: no computed value is re-rounded by passing its fields to normalize()/normalize1(), '
+            'which turn inf/nan into 0 (two genuine defects repaired: acos/asin of complex nan/inf, '
+            'nthroot).  This is a necessary condition of "inf/nan arguments follow the documented '
+            'limits"; exactness of perfect powers and special points is a value question and is not '
+            'decided (the three seeded changes for this property are of that kind and are not detected).',
+            'none beyond the parser',
+            'DESIGN.md section 2, Engine B (B-R6)'),
     'C10': ('B-rounding-flow',
             'static analysis: flow-sensitive abstract interpretation of the kernels (bounded '
             'disjunctive worlds, affine precision expressions, inter-procedural summaries), '
